@@ -169,6 +169,25 @@ fn show_outcome(r: Result<Option<Response>, MpdProtocolError>) -> (String, bool)
     }
 }
 
+fn ping() -> mpd_protocol::command::Command {
+    mpd_protocol::command::Command::new("ping")
+}
+
+fn ping_list() -> mpd_protocol::command::CommandList {
+    let mut l = mpd_protocol::command::CommandList::new(ping());
+    l.add(mpd_protocol::command::Command::new("status"));
+    l
+}
+
+/// `command()` is "send, then receive": its answer, put back into receive()'s terms (the end of the stream is an error there)
+fn as_receive(r: Result<Response, MpdProtocolError>) -> Result<Option<Response>, MpdProtocolError> {
+    match r {
+        Ok(resp) => Ok(Some(resp)),
+        Err(MpdProtocolError::Io(e)) if e.kind() == io::ErrorKind::UnexpectedEof && e.to_string().contains("closed without a response") => Ok(None),
+        Err(e) => Err(e),
+    }
+}
+
 const GREETING: &[u8] = b"OK MPD 0.23.5\n";
 
 fn pattern(n: usize) -> Vec<u8> {
@@ -286,7 +305,10 @@ pub fn run(toks: &[&str]) -> String {
         return run_bigbin(toks);
     }
     let with_greeting = toks[0] == "recv";
-    let flavour = toks[1];
+    // flavour: b (blocking) / a (async), optionally followed by c or l: every second response is then obtained through
+    // command() / command_list() (documented as "send followed by receive") instead of receive()
+    let via = toks[1].chars().nth(1);
+    let flavour = &toks[1][..1.min(toks[1].len())];
     let extra: usize = toks[2].parse().unwrap_or(0);
     let fail = toks[3].starts_with("err");
     let fail_kind = match toks[3].strip_prefix("err:").unwrap_or("other") {
@@ -324,8 +346,15 @@ pub fn run(toks: &[&str]) -> String {
                 out.push(format!("connected:{}", hex(conn.protocol_version().as_bytes())));
             }
             let mut left = extra;
+            let mut turn = 0usize;
             loop {
-                let (s, more) = show_outcome(conn.receive());
+                turn += 1;
+                let got = match via {
+                    Some('c') if turn % 2 == 0 => as_receive(conn.command(ping())),
+                    Some('l') if turn % 2 == 0 => as_receive(conn.command_list(ping_list())),
+                    _ => conn.receive(),
+                };
+                let (s, more) = show_outcome(got);
                 out.push(s);
                 if !more {
                     if transient.replace(false) {
@@ -351,8 +380,15 @@ pub fn run(toks: &[&str]) -> String {
                     out.push(format!("connected:{}", hex(conn.protocol_version().as_bytes())));
                 }
                 let mut left = extra;
+                let mut turn = 0usize;
                 loop {
-                    let (s, more) = show_outcome(conn.receive().await);
+                    turn += 1;
+                    let got = match via {
+                        Some('c') if turn % 2 == 0 => as_receive(conn.command(ping()).await),
+                        Some('l') if turn % 2 == 0 => as_receive(conn.command_list(ping_list()).await),
+                        _ => conn.receive().await,
+                    };
+                    let (s, more) = show_outcome(got);
                     out.push(s);
                     if !more {
                         if transient.replace(false) {
